@@ -23,6 +23,33 @@ func TestSim(t *testing.T) {
 
 var c15names = []string{"alpha", "beta", "gamma"}
 
+// pointer-form routes: built from pointer AST nodes as API users (and pkg/jit's own tests) build
+// them; the optimizer only rewrites this form, so only here do the optimised tiers differ from
+// the baseline. "p-orders" assigns literals to variables that "p-items" reads from its inputs.
+var c15ptrNames = []string{"p-orders", "p-items"}
+
+func c15ptrRoute(name string, v int) *ast.Route {
+	lit := func(n int) ast.Expr { return &ast.LiteralExpr{Value: ast.IntLiteral{Value: int64(n)}} }
+	str := func(x string) ast.Expr { return &ast.LiteralExpr{Value: ast.StringLiteral{Value: x}} }
+	vr := func(x string) ast.Expr { return &ast.VariableExpr{Name: x} }
+	if name == "p-orders" {
+		return &ast.Route{Method: ast.Get, Path: "/orders", Body: []ast.Statement{
+			&ast.AssignStatement{Target: "lim", Value: lit(10 + v)},
+			&ast.AssignStatement{Target: "n", Value: lit(3)},
+			&ast.AssignStatement{Target: "w", Value: &ast.BinaryOpExpr{Left: vr("lim"), Op: ast.Mul, Right: lit(2)}},
+			&ast.ReturnStatement{Value: &ast.ObjectExpr{Fields: []ast.ObjectField{
+				{Key: "r", Value: str("p-orders")}, {Key: "v", Value: lit(v)}, {Key: "y", Value: vr("w")}, {Key: "lim", Value: vr("lim")},
+			}}},
+		}}
+	}
+	return &ast.Route{Method: ast.Get, Path: "/items/:lim/:n", Body: []ast.Statement{
+		&ast.AssignStatement{Target: "z", Value: lit(v)},
+		&ast.ReturnStatement{Value: &ast.ObjectExpr{Fields: []ast.ObjectField{
+			{Key: "r", Value: str("p-items")}, {Key: "v", Value: vr("z")}, {Key: "lim", Value: vr("lim")}, {Key: "n", Value: vr("n")},
+		}}},
+	}}
+}
+
 // c15routeSrc: version v of route name; the body mixes constants, arithmetic, a branch and a
 // loop so that optimisation tiers have something to do, and returns name and version markers.
 func c15routeSrc(name string, v int) string {
@@ -53,6 +80,22 @@ func (d *c15defs) get(s *sim.Sim, name string, v int) *ast.Route {
 	key := fmt.Sprintf("%s/%d", name, v)
 	if r, ok := d.routes[key]; ok {
 		return r
+	}
+	if strings.HasPrefix(name, "p-") {
+		route := c15ptrRoute(name, v)
+		d.routes[key] = route
+		// the baseline is compiled from a separately built, identical AST (an optimising compile
+		// must not be able to influence it through shared nodes)
+		bc, err := compiler.NewCompilerWithOptLevel(compiler.OptNone).CompileRoute(c15ptrRoute(name, v))
+		if err != nil {
+			s.InfraFail("C15: baseline compile (pointer form): " + err.Error())
+		}
+		out, err := c15exec(bc)
+		if err != nil {
+			s.InfraFail("C15: baseline execution (pointer form): " + err.Error())
+		}
+		d.baseline[key] = out
+		return route
 	}
 	lx := parser.NewLexer(c15routeSrc(name, v))
 	toks, err := lx.Tokenize()
@@ -88,6 +131,7 @@ func (d *c15defs) get(s *sim.Sim, name string, v int) *ast.Route {
 func c15exec(bc []byte) (string, error) {
 	m := vm.NewVM()
 	m.SetLocal("n", vm.StringValue{Val: "5"})
+	m.SetLocal("lim", vm.StringValue{Val: "77"})
 	val, err := m.Execute(bc)
 	if err != nil {
 		return "", err
@@ -127,7 +171,12 @@ func c15Run(s *sim.Sim, p *sim.Params) {
 	current := map[string]int{}
 	invals := map[string][]*c15inval{}
 	passes := map[string][]c15pass{}
-	for _, n := range c15names {
+	names := c15names
+	if s.Choose(sim.SWork, 3) == 0 {
+		names = append(append([]string{}, c15ptrNames...), c15names[0])
+		s.Probe("pointer-form-routes")
+	}
+	for _, n := range names {
 		current[n] = 1
 		defs.get(s, n, 1)
 	}
@@ -220,10 +269,10 @@ func c15Run(s *sim.Sim, p *sim.Params) {
 		}
 		ops := make([]op, nops)
 		for i := range ops {
-			o := op{name: c15names[s.Choose(sim.SWork, len(c15names))]}
+			o := op{name: names[s.Choose(sim.SWork, len(names))]}
 			r0 := s.Choose(sim.SWork, 20)
 			if hot {
-				o.name = c15names[0]
+				o.name = names[0]
 				r0 = []int{0, 1, 2, 8, 9, 10, 11, 16, 0, 8}[s.Choose(sim.SWork, 10)]
 			}
 			switch r := r0; {
@@ -312,7 +361,7 @@ func c15Run(s *sim.Sim, p *sim.Params) {
 					var others []*c15inval
 					if o.n == 1 {
 						// ClearCache invalidates every route: each gets an entry at its current version
-						for _, n := range c15names {
+						for _, n := range names {
 							if n != o.name {
 								others = append(others, &c15inval{ver: current[n], kind: "redefine", call: iv.call})
 								invals[n] = append(invals[n], others[len(others)-1])
